@@ -9,5 +9,6 @@ var knownOpen = map[string]bool{
 	sigBGDepRetry:        true,
 	sigBGCloneSetWait:    true,
 	sigBGDepWait:         true,
+	sigDepPartBack:       true,
 	sigBGStillControlled: true,
 }
